@@ -6,7 +6,7 @@ from props._lab import S, Lab, SymEnv, do_op, base_tree
 PROP = "C11"
 LEVEL = "other"
 SELFTEST_PARTS = ("num",)
-WALL_BUDGET = {"quick": 900, "thorough": 5400}
+WALL_BUDGET = {"quick": 1200, "thorough": 9000}
 OIDS = ["o1", "o2", "o3"]
 PATHS = [None, "/a", "/b", "/a/c"]
 
@@ -370,23 +370,20 @@ def signature(harness, params, rec):
 def jobs(tier):
     q = tier == "quick"
     out = []
-    if q:
-        out.append({"harness": "state", "params": {"oid_is_path": False, "K": 2}, "label": "state-ops/object-ids/2"})
-        out.append({"harness": "state2", "params": {"local_path_ids": True, "K": 2, "size": "medium"}, "label": "from-synced-base/path+object-ids/2/medium"})
-        out.append({"harness": "state2", "params": {"local_path_ids": True, "K": 3, "size": "tiny"}, "label": "from-synced-base/path+object-ids/3/tiny"})
-    else:
-        out.append({"harness": "state", "params": {"oid_is_path": False, "K": 2}, "label": "state-ops/object-ids/2"})
+    out.append({"harness": "state", "params": {"oid_is_path": False, "K": 2}, "label": "state-ops/object-ids/2"})
+    out.append({"harness": "state2", "params": {"local_path_ids": True, "K": 2, "size": "medium"}, "label": "from-synced-base/path+object-ids/2/medium"})
+    out.append({"harness": "state2", "params": {"local_path_ids": True, "K": 3, "size": "tiny"}, "label": "from-synced-base/path+object-ids/3/tiny"})
+    if not q:
         out.append({"harness": "state", "params": {"oid_is_path": True, "K": 2}, "label": "state-ops/path-ids/2"})
-        out.append({"harness": "state", "params": {"oid_is_path": False, "K": 3, "noids": 2}, "label": "state-ops/object-ids/3/2-ids"})
         for lp in (True, False):
             out.append({"harness": "state2", "params": {"local_path_ids": lp, "K": 2, "size": "full"}, "label": "from-synced-base/%s/2/full" % ("path+object-ids" if lp else "object-ids")})
-            out.append({"harness": "state2", "params": {"local_path_ids": lp, "K": 3, "size": "medium"}, "label": "from-synced-base/%s/3/medium" % ("path+object-ids" if lp else "object-ids")})
-            out.append({"harness": "state2", "params": {"local_path_ids": lp, "K": 4, "size": "tiny"}, "label": "from-synced-base/%s/4/tiny" % ("path+object-ids" if lp else "object-ids")})
-    for f in (("oid", "path") if q else ("oid", "path", "mixed", "oid-ci", "oid-filt")):
+        out.append({"harness": "state2", "params": {"local_path_ids": False, "K": 3, "size": "medium"}, "label": "from-synced-base/object-ids/3/medium"})
+        out.append({"harness": "state2", "params": {"local_path_ids": False, "K": 4, "size": "tiny"}, "label": "from-synced-base/object-ids/4/tiny"})
+    for f, sl in ((("oid", 1), ("path", 1)) if q else (("oid", 2), ("path", 2), ("mixed", 2), ("oid-ci", 1), ("oid-filt", 1))):
         for side in (0, 1):
             for op in OPS:
-                out.append({"harness": "engine", "params": {"flavour": f, "base": 2, "nops": 2, "slots": 1 if q else 2, "first": [side, op]},
-                            "label": "engine/%s/first=%d:%s" % (f, side, op)})
+                out.append({"harness": "engine", "params": {"flavour": f, "base": 2, "nops": 2, "slots": sl, "first": [side, op]},
+                            "label": "engine/%s/%dslots/first=%d:%s" % (f, sl, side, op)})
     out.append({"harness": "state~changed-not-pending", "params": {"oid_is_path": False, "K": 2}, "label": "state~changed-not-pending", "role": "sens"})
     return out
 
@@ -397,7 +394,7 @@ def meta(tier):
                        "split, side-state move between entries) are enumerated by the solver on the real SyncState; after each operation every live entry must be found under its id and path, "
                        "no slot may lead to an entry that no longer carries it, one owner per id, pending set = entries with a change flag and an id. The same invariants are checked after "
                        "every engine step of all 2-operation histories of the C01 family.",
-        "bounds": {"state operations": "2 (thorough 3) from {file event, folder event, assignment (6 kinds), split, merge} over 3 ids, 4 paths incl. None and a parent/child pair",
+        "bounds": {"state operations": "2, and 2-3 from a synchronised base (thorough: up to 4 on a tiny pool) from {file event, folder event, assignment (6 kinds), split, merge} over 3 ids, 4 paths incl. None and a parent/child pair",
                    "engine": "C01 family: 2 operations, 1 (2) slots, base tree file + folder"},
         "symbolic": ["operation kind, side, id, path, exists, prior id, target entry, assignment kind", "user operations and schedule slots (engine part)"],
         "outside": ["a folder's new path strictly inside its old path (no provider can emit it; the real code recurses without bound on it)", "longer sequences"],
